@@ -548,9 +548,26 @@ def main(argv):
     known_ids = {f['obligation'] for f in findings if f['property'] == prop}
     new_viol = {k: v for k, v in list(failed.items()) + list(kfailed.items()) if k not in known_ids}
     base_ids = set(baseline.get('obligations', []))
+    # a definite failure of an obligation that was discharged on the pinned tree stands on its own: the units are
+    # independent proofs, so another unit being undecided (resource limit, lost anchor) does not put it in doubt
+    definite = {k: v for k, v in new_viol.items() if not base_ids or k in base_ids}
     if not undecided and soft_undecided and not new_viol:
         undecided = soft_undecided
-    if undecided:
+    for f in findings:
+        if f['property'] == prop and (f['obligation'] in failed or f['obligation'] in kfailed):
+            lines_out.append(f"KNOWN-FINDING: property={prop} {f['obligation']} {f['what']}")
+    if definite:
+        replay_path = write_replay(prop, tier, new_viol, runs, kinfo)
+        witness = any(v and isinstance(v, list) and v[0].get('replayed') for v in kfailed.values())
+        tail = '' if witness else ' no-failing-input-found'
+        lines_out.append(f'VIOLATION property={prop} replay={replay_path}{tail}')
+        for k, v in new_viol.items():
+            what = v[0].get('kind', 'failed') if v else 'failed'
+            lines_out.append(f'  failed obligation {k} ({what})')
+        for u in undecided:
+            lines_out.append(f"  note: unit {u['unit']} undecided ({u.get('reason')})")
+        rc = 1
+    elif undecided:
         for u in undecided:
             lines_out.append(f"UNDECIDED property={prop} unit={u['unit']} reason={u.get('reason')}")
         rc = 2
@@ -558,24 +575,9 @@ def main(argv):
         for v in vac:
             lines_out.append(f'UNDECIDED property={prop} reason=vacuity guard: {v}')
         rc = 2
-    else:
-        for f in findings:
-            if f['property'] == prop and (f['obligation'] in failed or f['obligation'] in kfailed):
-                lines_out.append(f"KNOWN-FINDING: property={prop} {f['obligation']} {f['what']}")
-        if new_viol:
-            not_in_base = [k for k in new_viol if base_ids and k not in base_ids]
-            if not_in_base and len(not_in_base) == len(new_viol):
-                lines_out.append(f"UNDECIDED property={prop} reason=failing obligations are not in the baseline (never discharged on the pinned tree): {not_in_base}")
-                rc = 2
-            else:
-                replay_path = write_replay(prop, tier, new_viol, runs, kinfo)
-                witness = any(v and isinstance(v, list) and v[0].get('replayed') for v in kfailed.values())
-                tail = '' if witness else ' no-failing-input-found'
-                lines_out.append(f'VIOLATION property={prop} replay={replay_path}{tail}')
-                for k, v in new_viol.items():
-                    what = v[0].get('kind', 'failed') if v else 'failed'
-                    lines_out.append(f'  failed obligation {k} ({what})')
-                rc = 1
+    elif new_viol:
+        lines_out.append(f"UNDECIDED property={prop} reason=failing obligations are not in the baseline (never discharged on the pinned tree): {sorted(new_viol)}")
+        rc = 2
 
     # a property decided only by bounded harnesses is bounded model checking, never "proof"
     level = 'proof' if n_obs > 0 else 'model_checking'
